@@ -20,6 +20,10 @@ fn arr<'a>(v: &'a Value, key: &str) -> &'a [Value] {
     v.get(key).and_then(Value::as_array).map(Vec::as_slice).unwrap_or(&[])
 }
 
+pub fn fields_of(v: &Value) -> Vec<(String, Value)> {
+    fields(v)
+}
+
 /// struct fields arrive as [[name, x], ...] (or as a JSON object)
 fn fields(v: &Value) -> Vec<(String, Value)> {
     match v.get("fs") {
